@@ -141,9 +141,9 @@ func checkC09(a *checkArgs, r *Result) error {
 	}
 	type base struct {
 		writer, name, cfg string
-		mk               func(w io.Writer) (wcloser, error)
-		hist             []string
-		data             []byte
+		mk                func(w io.Writer) (wcloser, error)
+		hist              []string
+		data              []byte
 	}
 	var bases []base
 	for i := 0; i < nbase; i++ {
